@@ -244,8 +244,12 @@ def families(tier):
              ('flat', 'u-vcpu-disk@1.10', False),
              ('two-i', '1+2-isolate', False),
              ('nest-s', 'u-vcpu-disk', False),
-             ('flat-s', 'u+1-none', False)]
-    extra = [('flat', 'u-vcpu-disk@1.36', True),
+             ('flat-s', 'u+1-none', False),
+             ('tree', 'u+1+2-nonadj', False),
+             ('flat', 'u+D-root-notsharing', False)]
+    extra = [('two', '1+2+3-nonadj', False), ('two', 'u+1+2-nonadj', True),
+             ('flat-s', 'u+1+2-nonadj', False),
+             ('flat', 'u-vcpu-disk@1.36', True),
              ('flat', 'u-vcpu-disk@1.12', True),
              ('flat', 'u-vcpu-disk@1.17', True),
              ('tree', 'u-1.28', True), ('tree', 'u+1-none', True),
